@@ -76,13 +76,20 @@ CLAIMED = {
         'its rounding boundary (sx/zint.py).',
    technique='bounded symbolic execution of the real source with z3 (SX, integer theory): solver verdict per path, replay of models on the untouched library'),
  'C20': dict(
-   text='CHANNEL CLAUSES ONLY. Bounded symbolic execution of the real AdnlChannel.__init__/encrypt/decrypt, key-id and AES key/iv derivation code with '
-        'X25519 (uninterpreted, ECDH commutativity), AES-CTR (XOR with an uninterpreted key stream) and SHA-256 (injective) as environment stubs: for '
-        'both peers\' secrets and 32-byte ids symbolic (all three id orderings solver-decided) and plaintexts of 0..64 bytes symbolic, each side decrypts '
-        'exactly what the other encrypts in both directions, the packet is key-id || sha256(plaintext) || ciphertext with the key id the peer expects, '
-        'and the AES key/iv are key[0:16]+hash[16:32] / hash[0:4]+key[20:32].',
-   note='NOT covered (no solver encoding within reach, DESIGN.md section 7): "a signature verifies under the matching key and fails otherwise" and the mnemonic '
-        'clauses - libsodium Ed25519 and PBKDF2-HMAC-SHA512; they are exercised on fixed vectors as stub-contract validation only. Trusted: the stub contracts.'),
+   text='Bounded symbolic execution of the real crypto glue with the primitives as environment stubs under stated contracts. CHANNEL: real '
+        'AdnlChannel.__init__/encrypt/decrypt, key-id and AES key/iv derivation with X25519 (uninterpreted, ECDH commutativity), AES-CTR (XOR with an '
+        'uninterpreted key stream) and SHA-256 (injective): both peers\' secrets and 32-byte ids symbolic (all three id orderings solver-decided), '
+        'plaintexts of 0..64 bytes symbolic, a third key pair opening a channel to the same peer under the same (host, port): each side decrypts exactly '
+        'what the other encrypts, packet = key-id || sha256(plaintext) || ciphertext with the key id the peer expects. SIGNATURES: real sign_message / '
+        'Client.sign / get_signature / verify_sign over an idealised Ed25519 (one valid signature per (key, message), injective): verifies under the '
+        'matching key; fails for every other message (same and other length), every altered signature, every other key. MNEMONICS: real '
+        'mnemonic_new / mnemonic_is_valid / mnemonic_to_* with the random draw of one word symbolic (4-index windows at the ends and the middle of the '
+        'word list, word positions 0,1,11,23 quick / all 24 thorough), PBKDF2 and key generation uninterpreted: the generated list is valid, validity and '
+        'the derived keys are functions of the words, derivation follows the documented composition.',
+   note='What the solver decides is the library\'s own code around the primitives (argument order, slicing, word handling, exception handling, caching); '
+        'libsodium Ed25519, X25519, AES, PBKDF2/HMAC themselves are NOT verified - they are stubs whose contracts (listed in the evidence) are validated on '
+        'fixed vectors against the real primitives, and every counterexample is replayed with the real primitives. Mnemonic bound: only the first candidate '
+        'of the generator loop is followed, one symbolic draw per instance.'),
  'C13': dict(
    text='Bounded symbolic execution of the real Address text code (text as typed ropes, base64 as a stub with decode(encode(x))=x): for the raw form '
         'and the 8 friendly variants and ALL workchains -128..127 and 32-byte account ids, parse(render(a)) equals a with the same flags and equal '
